@@ -107,6 +107,23 @@ func checkC16(c *Ctx, e *Env) {
 	ruleC16Mgr(c, m)
 	ruleC16Every(c, m)
 	ruleC16Stateless(c, m)
+	// every write of a committed path happened: its error was looked at and found nil (round 7: an Insert into
+	// DataID refused by the unique IRI index was tolerated — the probe then hands back an id no row maps to
+	// the IRI, and a second anchor row with a new timestamp is written under it)
+	{
+		r := RunE1(m)
+		seen := map[string]bool{}
+		nEff := 0
+		for _, h := range r.Handlers {
+			if h.EP.Kind == "canary" {
+				continue
+			}
+			nEff += effectErrorsOf(c, m, h, "C16.E1", seen)
+		}
+		if len(seen) == 0 {
+			c.Check(nEff > 0, "C16.E1", "x/data handlers#effect-errors", "-", fmt.Sprintf("%d write events on the committed paths of the x/data handlers: each one's error value is known nil where the handler succeeds (a refused write never passes for a record made)", nEff))
+		}
+	}
 	importObligations(c, e, checkC15, "C15", "C16.IRI", "data ids#one-per-content-hash", "anchors, attestations and registrations are kept per data id, and the data id is looked up by IRI: two different content hashes keep separate permanent records only if the encoders give them different IRIs", func(o *Oblig) bool {
 		return o.Rule == "C15.CODEC" || o.Rule == "C15.NARROW" || o.Rule == "C15.LOOKUP" || o.Rule == "C15.IDENT"
 	})
